@@ -443,7 +443,7 @@ impl Compress {
                         Some(item.rr_rdlen()),
                     );
                 }
-                it = item.next();
+                it = item.next_including_opt();
             }
         }
         Ok(compressed)
